@@ -177,6 +177,8 @@ static void run_long_hold(int kind, int W, int hold_ms) {
 	lk_free(&lh_lk); st_long_holds++;
 }
 
+static long long st_extra_unlocks;
+static void *foreign_unlock(void *a) { lk_unlock((Lk *)a); return NULL; }
 static void run_single(int kind, long long n) {
 	Lk l; long long i;
 	cur_kind = kind; scen = "single-thread";
@@ -186,6 +188,21 @@ static void run_single(int kind, long long n) {
 		if (lk_try(&l)) { viol("trylock-true-while-held", "trylock returned TRUE while the lock was held (by the same thread)"); lk_unlock(&l); }
 		if (!lk_unlock(&l)) viol("lock-call-failed", "unlock returned FALSE");
 		if (!lk_lock(&l) || !lk_unlock(&l)) viol("lock-call-failed", "lock/unlock returned FALSE");
+		/* pspinlock.h: with a lock-free atomic model "any thread can unlock any spinlock. It is also safe to call this routine on an unlocked
+		 * spinlock" - the lock stays free and usable afterwards */
+		if (kind == 1 && p_atomic_is_lock_free() && i % 7 == 3) {
+			scen = "unlock-of-unlocked-spinlock";
+			(void)lk_unlock(&l); st_extra_unlocks++;
+			if (!lk_try(&l)) { viol("trylock-false-on-free-lock", "after p_spinlock_unlock on an unlocked spinlock, trylock on the free lock returned FALSE (iteration %lld)", i); break; }
+			if (lk_try(&l)) { viol("trylock-true-while-held", "after an extra unlock, trylock returned TRUE while the lock was held"); lk_unlock(&l); }
+			lk_unlock(&l);
+			if (i % 700 == 3) {     /* owner locks, another thread unlocks, owner unlocks as well: one unlock more than locks */
+				pthread_t t; lk_lock(&l); pthread_create(&t, NULL, foreign_unlock, &l); pthread_join(t, NULL); (void)lk_unlock(&l); st_extra_unlocks++;
+				if (!lk_try(&l)) { viol("trylock-false-on-free-lock", "after an unlock by another thread followed by the owner's unlock, trylock on the free lock returned FALSE"); break; }
+				lk_unlock(&l);
+			}
+			scen = "single-thread";
+		}
 		st_single++;
 	}
 	lk_free(&l);
@@ -212,7 +229,7 @@ int main(int argc, char **argv) {
 	}
 	p_libsys_shutdown();
 	printf("{\"ev\":\"stats\",\"model\":\"%s\",\"acquisitions\":%lld,\"trylock_true\":%lld,\"trylock_false\":%lld,\"phases\":%lld,\"handoff_cells\":%lld,\"handoff_filled\":%lld,\"max_waiting\":%d,"
-	       "\"long_holds\":%lld,\"handshakes\":%lld,\"single_thread_iters\":%lld,\"quiescent_trylocks\":%lld,\"viol\":%d,\"wall\":%.2f}\n",
-	       VH_MODEL, st_acq, st_try_true, st_try_false, st_phases, st_handoff_cells, st_handoff_filled, st_max_spin, st_long_holds, st_handshakes, st_single, st_quiescent, vh_nviol, vh_now() - t0);
+	       "\"long_holds\":%lld,\"handshakes\":%lld,\"single_thread_iters\":%lld,\"unlocks_of_unlocked_spinlock\":%lld,\"quiescent_trylocks\":%lld,\"viol\":%d,\"wall\":%.2f}\n",
+	       VH_MODEL, st_acq, st_try_true, st_try_false, st_phases, st_handoff_cells, st_handoff_filled, st_max_spin, st_long_holds, st_handshakes, st_single, st_extra_unlocks, st_quiescent, vh_nviol, vh_now() - t0);
 	return 0;
 }
